@@ -23,11 +23,11 @@ def main():
                        'rout_efficiency: only GErout and Erout (global part) are covered; local efficiencies are out of scope']
     # T-gen: re-extract the core update steps from /repo's current source (translate/cores.py); the generated
     # obligations say the extracted IR is the reference program whose interpreter is proved equal to the model
-    ck.cov['cores'] = cores.generate(families=['floyd', 'dijk', 'bin', 'bfs', 'reach', 'char', 'eff'])
+    ck.cov['cores'] = cores.generate(families=['floyd', 'dijk', 'bin', 'bfs', 'reach', 'char', 'eff', 'pindist'])
     for p_ in ck.cov['cores']['problems']:
         ck.corr_break('core extractor (translate/cores.py)', p_)
     ok = ck.lean_gate(['BctVerif.Props.C03'], extra_modules=['BctVerif.Model.Dist'])
-    ck.lean_gate([], gen_modules=['BctVerif.Gen.CoresFloyd', 'BctVerif.Gen.CoresDijk', 'BctVerif.Gen.CoresBin', 'BctVerif.Gen.CoresBfs', 'BctVerif.Gen.CoresReach', 'BctVerif.Gen.CoresChar', 'BctVerif.Gen.CoresEff'])
+    ck.lean_gate([], gen_modules=['BctVerif.Gen.CoresFloyd', 'BctVerif.Gen.CoresDijk', 'BctVerif.Gen.CoresBin', 'BctVerif.Gen.CoresBfs', 'BctVerif.Gen.CoresReach', 'BctVerif.Gen.CoresChar', 'BctVerif.Gen.CoresEff', 'BctVerif.Gen.CoresPinDist'])
     if ck.tier == 'thorough' and ok:
         ck.leanchecker(['BctVerif.Props.C03', 'BctVerif.Model.Dist'])
     rp = json.load(open(ck.replay)) if ck.replay else None
